@@ -78,6 +78,14 @@ def toy_phase(draw, name, T0, x0, vmA, allow_shapes=True, sites=None, undersat=T
     return p
 
 
+def _draw_api(draw, sc):
+    """Entry point through which the harness enters the configuration: model-level setters (2 in 3) or parameter objects
+    handed to the constructor (matrix object filled in one of three orders)."""
+    if draw(st.integers(0, 2)) == 2:
+        sc["api"] = "objects"
+        sc["obj_order"] = draw(st.integers(0, 2))
+
+
 @st.composite
 def pbm_spec(draw):
     cmin = 10 ** draw(st.floats(-10.3, -9.5))
@@ -159,6 +167,7 @@ def toy_binary_scenario(draw, cap=400, max_phases=3, allow_profile=True, sites=N
         opts["parents"] = {phases[k]["name"]: [phases[j]["name"] for j in range(k) if draw(st.booleans())] or [phases[0]["name"]]}
     if opts:
         sc["options"] = opts
+    _draw_api(draw, sc)
     return sc
 
 
@@ -208,6 +217,7 @@ def toy_multi_scenario(draw, cap=300, max_phases=2, allow_profile=True, min_phas
     if gbs:
         kf = draw(st.floats(0.0, 0.95))
         sc["gbe"] = min(2 * kf * KMAX[p["site"]] * p["gamma"] for p in gbs)
+    _draw_api(draw, sc)
     return sc
 
 
@@ -240,4 +250,5 @@ def real_scenario(draw, cap=120, systems=("alzr", "nicral")):
                "pbm": {"cmin": 1e-10, "cmax": 1e-8, "bins": 75, "minBins": 50, "maxBins": 100, "adaptive": True},
                "constraints": cons, "iterator": draw(st.sampled_from(["euler", "rk4"])),
                "durations": [total] if nd == 1 else [total * 0.4, total * 0.6], "cap": cap})
+    _draw_api(draw, sc)
     return sc
